@@ -31,7 +31,10 @@ CHECKS = {
     "C09": "gen.c09",
     "C10": "gen.c10",
     "C11": "gen.c11",
+    "C12": "gen.c12",
+    "C13": "gen.c13",
     "C15": "gen.c15",
+    "C19": "gen.c19",
     "C20": "gen.c20",
 }
 
